@@ -232,10 +232,16 @@ pub fn judge(_cfg: &Config, case: &Case, l: &mut Local) {
                             }
                             let va = guard(|| a.validate());
                             let vt = guard(|| t.validate());
-                            if let (Ok(va), Ok(vt)) = (va, vt)
+                            if let (Ok(va), Ok(vt)) = (&va, &vt)
                                 && (va.is_valid != vt.is_valid || va.errors.len() != vt.errors.len())
                             {
                                 v(l, "ParsedSwiftMessage::validate", code, "differs-from-typed", format!("wrapper validate differs from typed validate for MT{code}"), case);
+                            }
+                            // both adapters against the typed API itself (the body's own full list)
+                            if let (Ok(va), Ok(errs)) = (&va, guard(|| t.body().validate(false)))
+                                && (va.is_valid != errs.is_empty() || va.errors.len() != errs.len())
+                            {
+                                v(l, "ParsedSwiftMessage::validate", code, "differs-from-typed-full-list", format!("auto-detected validate reports {} errors (valid={}), MT{code}::validate_network_rules(false) reports {}", va.errors.len(), va.is_valid, errs.len()), case);
                             }
                         }
                         (Err(_), Err(_)) => {}
